@@ -2,7 +2,13 @@
 // C12 — bounded stand-in (NOT a proof), second line behind the Verus unit `auth_token`: when a change rewrites the function
 // into a form Verus cannot take (iterator-adapter chains), the verbatim text still compiles with rustc against these small
 // EXECUTABLE std-only shims of http/url, and is run on every request of a stated finite space against the documented rule.
-#![allow(dead_code, unused_imports, unused_variables)]
+#![allow(dead_code, unused_imports, unused_variables, unused_macros)]
+// tracing macros (shim: logging has no bearing on the property)
+macro_rules! trace { ($($t:tt)*) => {}; }
+macro_rules! debug { ($($t:tt)*) => {}; }
+macro_rules! info { ($($t:tt)*) => {}; }
+macro_rules! warn { ($($t:tt)*) => {}; }
+macro_rules! error { ($($t:tt)*) => {}; }
 use std::borrow::Cow;
 
 pub struct HeaderName(&'static str);
